@@ -18,43 +18,24 @@ Proof. destruct g; simpl; tauto. Qed.
 Lemma translator_clean : translator_problems = 0.
 Proof. reflexivity. Qed.
 
-(* every gate agrees -- except possibly the optional LINCOM count, which the
-   pinned tree does not gate at all (0) and proposed_fixes/C08-7 gates at 7;
-   by computation over the whole table, lifted *)
-Lemma gates_ok_except :
-  forallb (fun g => gname_eqb g S_LINCOM_COUNT_OPTIONAL || gate_ok g) all_gnames = true.
+(* every gate agrees; by computation over the whole table, lifted *)
+Lemma gates_ok_all : forallb gate_ok all_gnames = true.
 Proof. vm_compute. reflexivity. Qed.
 
+Lemma gates_agree_all : forall g, code_gate g = Some (spec_gate g).
+Proof.
+  intro g.
+  pose proof (proj1 (forallb_forall _ _) gates_ok_all g (all_gnames_complete g)) as A.
+  unfold gate_ok in A. destruct (code_gate g) as [v|]; [|discriminate].
+  apply Nat.eqb_eq in A. subst. reflexivity.
+Qed.
+
+(* kept under its old name and shape for NamesProofs.v *)
 Lemma gates_partial : forall g, g <> S_LINCOM_COUNT_OPTIONAL -> code_gate g = Some (spec_gate g).
-Proof.
-  intros g H.
-  pose proof (proj1 (forallb_forall _ _) gates_ok_except g (all_gnames_complete g)) as A.
-  apply orb_prop in A. destruct A as [A|A].
-  - apply gname_eqb_eq in A. contradiction.
-  - unfold gate_ok in A. destruct (code_gate g) as [v|]; [|discriminate].
-    apply Nat.eqb_eq in A. subst. reflexivity.
-Qed.
-
-Lemma gates_lincom_count :
-  code_gate S_LINCOM_COUNT_OPTIONAL = Some 0 \/
-  code_gate S_LINCOM_COUNT_OPTIONAL = Some (spec_gate S_LINCOM_COUNT_OPTIONAL).
-Proof. first [left; vm_compute; reflexivity | right; vm_compute; reflexivity]. Qed.
-
-Definition gates_agree_statement : Prop := forall g, code_gate g = Some (spec_gate g).
-
-Lemma gates_decided :
-  gates_agree_statement \/ (exists g, code_gate g <> Some (spec_gate g)).
-Proof.
-  first
-    [ right; exists S_LINCOM_COUNT_OPTIONAL; vm_compute; discriminate
-    | left; intro g; destruct (gname_eqb g S_LINCOM_COUNT_OPTIONAL) eqn:E;
-      [ apply gname_eqb_eq in E; subst; vm_compute; reflexivity
-      | apply gates_partial; intro; subst; discriminate ] ].
-Qed.
+Proof. intros g _. apply gates_agree_all. Qed.
 
 Lemma applies_agree : forall pedantic standards g,
-  g <> S_LINCOM_COUNT_OPTIONAL ->
   code_applies pedantic standards g = spec_applies pedantic standards g.
 Proof.
-  intros p s g H. unfold code_applies, spec_applies, applies. rewrite (gates_partial g H). reflexivity.
+  intros p s g. unfold code_applies, spec_applies, applies. rewrite (gates_agree_all g). reflexivity.
 Qed.
